@@ -95,7 +95,7 @@ def families(tier):
         add('c03.recursion', f'd{maxd}-{mode}-p{int(extra)}', ['A'], hs, [('disp', 'A', 'R', 'await')], [stall_actor], maxd=maxd)
     # the grammar-generated corpus shared by the bus properties (vsched/gen.py), judged by this property's oracle
     from .. import gen
-    out += gen.family('C03', tier, params=dict(leaf='gen'), timeouts=(None,), main_mode='await_root', allow_forward=False)
+    out += gen.family('C03', tier, params=dict(leaf='gen'), timeouts=(None, 0.5), main_mode='await_root', allow_forward=False)
     return out
 
 
@@ -140,4 +140,20 @@ def oracle(spec, res):
             out.append(V('handler_entered_after_return', f'await {a["ev"]} returned at seq {a["end"]}; later entries {late[:2]}'))
     if v == 'raised':
         out.append(V('main_raised', str(res['verdict'])))
+    if v == 'done':
+        # the other direction of the 'iff', for every event of the run: at quiescence (nothing runnable, no timer left) an event whose whole tree is
+        # terminal must have its completion signal set - an ordinary-code await on it waits for exactly that signal and would otherwise never return
+        fin = res['final']['events']
+
+        def tree_done(ev, seen=()):
+            fe = fin.get(ev)
+            if fe is None or ev in seen:
+                return True
+            if not fe['results'] and fe['status'] != 'completed':
+                return False
+            return all(r['status'] in ('completed', 'error') and all(tree_done(c, seen + (ev,)) for c in r['children']) for r in fe['results'])
+        for ev, fe in fin.items():
+            if not fe['sig'] and fe['results'] and tree_done(ev):
+                out.append(V('tree_done_but_completion_never_signalled', f'{ev}: status {fe["status"]}, results {[(r["h"], r["status"]) for r in fe["results"]]}, children '
+                             f'{[(c, fin.get(c, {}).get("status")) for r in fe["results"] for c in r["children"]]}: an await on it would never return'))
     return out
